@@ -54,6 +54,40 @@ fn op_from(v: &Value) -> Operation {
     }
 }
 
+/// A host that answers hint-producing advice injectors with scripted values instead of the honest
+/// ones (everything else is delegated to the default host).
+struct ScriptedHost {
+    inner: DefaultHost<MemAdviceProvider>,
+    hints: Vec<u64>,
+}
+
+impl miden_processor::Host for ScriptedHost {
+    fn get_advice<S: miden_processor::ProcessState>(
+        &mut self,
+        process: &S,
+        extractor: miden_processor::AdviceExtractor,
+    ) -> Result<miden_processor::HostResponse, miden_processor::ExecutionError> {
+        self.inner.get_advice(process, extractor)
+    }
+
+    fn set_advice<S: miden_processor::ProcessState>(
+        &mut self,
+        process: &S,
+        injector: miden_core::AdviceInjector,
+    ) -> Result<miden_processor::HostResponse, miden_processor::ExecutionError> {
+        use miden_core::AdviceInjector::*;
+        use miden_processor::{AdviceProvider, AdviceSource};
+        match injector {
+            U32Clz | U32Ctz | U32Clo | U32Cto | ILog2 if !self.hints.is_empty() => {
+                let v = self.hints.remove(0);
+                self.inner.advice_provider_mut().push_stack(AdviceSource::Value(Felt::new(v)))?;
+                Ok(miden_processor::HostResponse::None)
+            }
+            other => self.inner.set_advice(process, other),
+        }
+    }
+}
+
 fn run_program(program: &Program, job: &Value) -> Value {
     // stack given top-first; StackInputs::try_from_values expects bottom-first order
     let mut st = u64s(&job["stack"]);
@@ -69,7 +103,13 @@ fn run_program(program: &Program, job: &Value) -> Value {
         Ok(o) => o,
         Err(e) => return json!({"status":"options_error","error": format!("{e:?}")}),
     };
-    let r = panic::catch_unwind(panic::AssertUnwindSafe(|| miden_processor::execute(program, stack, host, opts)));
+    let hints = u64s(&job["hints"]);
+    let r = if hints.is_empty() {
+        panic::catch_unwind(panic::AssertUnwindSafe(|| miden_processor::execute(program, stack, host, opts)))
+    } else {
+        let sh = ScriptedHost { inner: host, hints };
+        panic::catch_unwind(panic::AssertUnwindSafe(|| miden_processor::execute(program, stack, sh, opts)))
+    };
     match r {
         Err(_) => json!({"status":"panic"}),
         Ok(Err(e)) => json!({"status":"error","error": format!("{e:?}")}),
